@@ -42,7 +42,7 @@ Qed.
 Lemma make_directory_some u p i :
   make_directory u p = Some i -> p <> 0 /\ 0 <= i < 10000 /\ is_used u (p, i) = false.
 Proof.
-  unfold make_directory. destruct (p =? 0) eqn:E; [discriminate|].
+  unfold make_directory. destruct ((p =? 0) || (p =? bad_path)) eqn:E; [discriminate|].
   intro H. apply find_some in H as [Hin Hf]. unfold zrange in Hin. apply in_zrange_nat in Hin.
   split; [lia|]. split; [lia|]. now apply negb_true_iff in Hf.
 Qed.
@@ -697,3 +697,37 @@ Qed.
 Lemma fault_stop_reachable :
   forall (c : config) (ops : list op), fault_stop_ok (fault_obs (fst (run (init c) ops))) = true.
 Proof. intros. apply fault_stop_closes_channels. Qed.
+
+(* second stage of the fault stream *)
+Lemma stop_under_fault_inv proj s : Inv proj s -> Inv proj (stop_under_fault s).
+Proof. apply stop_inv. Qed.
+
+Lemma write_control_inv proj s r : Inv proj s -> Inv proj (fst (write_control true s r)).
+Proof.
+  intro HI. pose proof (wc_check proj s r HI) as H. unfold step, step_gen in H.
+  destruct (write_control true s r) as [s' rp]. cbn [fst].
+  destruct rp; destruct H as (k' & Hc & HI' & _); exact HI'.
+Qed.
+
+Lemma pub_all_ok r : forall cs,
+  Forall (chan_ok r) cs ->
+  forallb (pub1_ok r) (combine (map hasproj cs) (map (fun c => snd (publish_chan c 1)) cs)) = true.
+Proof.
+  induction cs as [|c t IH]; intro H; cbn [map combine forallb]; auto.
+  inversion H as [|? ? Hc Ht]; subst. rewrite (IH Ht), andb_true_r.
+  pose proof (publish_chan_spec r c 1 Hc ltac:(lia)) as Hp.
+  destruct (publish_chan c 1) as [c' [[d22 d3] doff]]. destruct Hp as (E1 & E2 & E3 & _).
+  unfold pub1_ok; cbn [fst snd]. rewrite E1, E2, E3, !Z.eqb_refl. reflexivity.
+Qed.
+
+Lemma fault_start_agrees :
+  forall (c : config) (ops : list op) (r : wcreq),
+    fault_start_ok (c_proj c) (fault_start_obs (fst (run (init c) ops)) r) = true.
+Proof.
+  intros c ops r. pose proof (reachable_inv c ops) as HI.
+  apply stop_under_fault_inv in HI. apply (write_control_inv _ _ r) in HI.
+  unfold fault_start_ok, fault_start_obs, pub_all; cbn [fst snd negb andb].
+  destruct HI as (H1 & H2 & _). set (s1 := fst (write_control true _ r)) in *.
+  rewrite <- H1. unfold zlen. rewrite !map_length, Z.eqb_refl. cbn [andb].
+  now apply pub_all_ok.
+Qed.
